@@ -11,6 +11,7 @@ from __future__ import annotations
 import hashlib
 import itertools
 import random
+import re
 import time
 import traceback
 from concurrent.futures import ThreadPoolExecutor
@@ -20,14 +21,18 @@ from bounded import standin
 from ._sessions import (
     CATS,
     PYPROJECT_PLAIN,
+    Deadline,
     Failures,
     Project,
+    Skipped,
     check_outcomes,
     diff_trees,
     expected_outcomes,
     have_xdist,
     replay_script,
+    result_for,
     same_ast,
+    set_deadline,
     step_src,
     tail,
 )
@@ -411,7 +416,7 @@ def restrict(expected, select):
     return {k: v for k, v in expected.items() if k.split("::")[-1] == select}
 
 
-def check_case(template, case, r, chain_trees, fails, chain_template):
+def check_case(template, case, r, chain_trees, fails, chain_template, skipped_any=False):
     """-> number of violations recorded"""
     n = 0
     desc = dict(template=case.tid, mode=case.mode, F=list(case.F), args=case.args, env=case.env,
@@ -429,8 +434,9 @@ def check_case(template, case, r, chain_trees, fails, chain_template):
     if case.select is None:
         exp_tree = chain_trees.get((case.tid, case.approved)) if case.approved else None
         if case.approved and exp_tree is None:
-            fails.add(None, desc, "C04: expectation (chain of single-category sessions) unavailable", "")
-            n += 1
+            if not skipped_any:
+                fails.add(None, desc, "C04: expectation (chain of single-category sessions) unavailable", "")
+                n += 1
         else:
             bad = c04_violations(case, r, exp_tree)
             if bad:
@@ -465,6 +471,10 @@ def check_case(template, case, r, chain_trees, fails, chain_template):
 
 def sha(b):
     return hashlib.sha256(b).hexdigest()
+
+
+class _Abort(Exception):
+    pass
 
 
 class Hist:
@@ -537,7 +547,8 @@ def c13_history(variant, fails, samples):
 
     def fail(finding, step, detail, check_src, hh=None):
         hh = hh or hist
-        fails.add(finding, dict(desc0, step=step), "C13: " + detail, hh.replay(EXT + "\n" + check_src))
+        prefix = "" if re.match(r"C\d\d[:/]", detail) else "C13: "
+        fails.add(finding, dict(desc0, step=step), prefix + detail, hh.replay(EXT + "\n" + check_src))
 
     try:
         # S1 create
@@ -545,8 +556,22 @@ def c13_history(variant, fails, samples):
         st = stored(r.after)
         src1 = r.after.get("test_e.py", b"").decode()
         if set(st) != {h[0] + suffix} or st.get(h[0] + suffix) != raw[0]:
-            fail(None, "S1 create", f"storage after create = {sorted(st)}; expected exactly {h[0] + suffix} holding the data\n" + tail(r.out, 20),
-                 f"assert set(ext(r['after'])) == {{{(h[0] + suffix)!r}}} and ext(r['after'])[{(h[0] + suffix)!r}] == {raw[0]!r}, sorted(ext(r['after']))")
+            # F20: hash-length >= 64 configured, the approved create wrote the full-hash reference external("<64hex><suffix>")
+            # (no '*'), and the storage holds only "<64hex>-new<suffix>": persist() looked up the exact name, found nothing and
+            # swallowed the HashError.  (Only the git-ignored -new file exists, pruned/re-created every session; the test is green anyway.)
+            f20 = (hlen >= 64 and f'external("{h[0]}{suffix}")' in src1 and set(st) == {h[0] + "-new" + suffix})
+            detail = f"storage after create = {sorted(st)}; expected exactly {h[0] + suffix} holding the data\n" + tail(r.out, 12)
+            check = f"assert set(ext(r['after'])) == {{{(h[0] + suffix)!r}}} and ext(r['after'])[{(h[0] + suffix)!r}] == {raw[0]!r}, sorted(ext(r['after']))"
+            if f20:
+                hh = hist.fork()
+                forks.append(hh)
+                r2 = hh.run([])
+                nsess += 1
+                detail += (f"\n--- following session without flags: exit status {r2.rc}, outcomes {r2.outcomes}, "
+                           f"storage now {sorted(stored(r2.after))} (never persisted: at best the git-ignored -new file that "
+                           f"outsource() re-creates in each session)")
+            fail("F20" if f20 else None, "S1 create", detail, check)
+            raise _Abort()  # the rest of the history depends on a persisted first external
         if ref(0) not in src1 or not same_ast_import(src1):
             fail(None, "S1 create", f"test file does not reference {ref(0)} / import external:\n{src1}",
                  f"assert {ref(0)!r} in r['after']['test_e.py'].decode(), r['after']['test_e.py'].decode()")
@@ -621,7 +646,7 @@ def c13_history(variant, fails, samples):
                 # session is the deletion of the unreferenced persisted external
                 finding = "F10" if ("review" in words and "trim" not in words and b"y" not in stdin
                                     and only_unused_persisted_removed and not env) else None
-                fail(finding, f"S5 probe: {tag}", f"session {args} env={env} stdin={stdin!r} approved no trim but: {diffs}\n" + tail(r.out, 12),
+                fail(finding, f"S5 probe: {tag}", f"C13/C04: session {args} env={env} stdin={stdin!r} approved no trim but: {diffs}\n" + tail(r.out, 12),
                      "assert r['after'] == r['before'], sorted(k for k in set(r['after']) | set(r['before']) if r['after'].get(k) != r['before'].get(k))", f)
         # S6 trim: now the unused file goes, the referenced one stays
         r = hist.run(["--inline-snapshot=trim"])
@@ -636,6 +661,8 @@ def c13_history(variant, fails, samples):
                  "assert r['before'] == r['after'] and r['rc'] == 0, r['rc']")
         samples.append(f"C13 history {desc0}: create -> rerun -> edit+report -> edit+short-report -> fix -> "
                        f"{len(probes)} no-trim probes -> trim -> rerun")
+    except (_Abort, Skipped):
+        pass
     except BaseException:
         fails.add(None, dict(desc0, step="exception"), "C13 harness exception:\n" + traceback.format_exc(), "")
     finally:
@@ -737,12 +764,27 @@ def chain_nodes():
                "(quick: ~35 of these) + single-test (-k) sessions per failing operation; external-storage histories of 7 steps "
                "+ no-trim probes for 2 (quick) / 6 (thorough) data/suffix/hash-length/storage-dir variants")
 def run(tier, seed):
+    return _run(tier, seed)
+
+
+def run_for(pid, tier, seed):
+    """only the parts that serve property `pid`, and only the failures attributed to it"""
+    return result_for(pid, _run(tier, seed, only=pid))
+
+
+run.run_for = run_for
+
+
+def _run(tier, seed, only=None):
     t0 = time.time()
     rng = random.Random(seed)
     fails = Failures()
     samples, cross = [], []
     evaluated = 0
     distinct = set()
+    deadline = set_deadline(Deadline(tier))
+    want_grid = only in (None, "C04", "C07")
+    want_hist = only in (None, "C04", "C13")  # F10 (unapproved removal of a persisted external) also concerns C04
     try:
         xdist = have_xdist()
         cross.append("xdist installed: -n 2 cases included" if xdist else "pytest-xdist not installed: xdist cases SKIPPED")
@@ -751,6 +793,13 @@ def run(tier, seed):
         cases = []
         for tid in templates:
             cases += build_quick_cases(tid, rng, xdist) if tier == "quick" else build_thorough_cases(tid, rng, xdist)
+        variants = c13_variants(tier, rng)
+        if not want_grid:
+            cases, templates_for_chains = [], {}
+        else:
+            templates_for_chains = templates
+        if not want_hist:
+            variants = []
 
         chain_trees = {}
         chain_results = {}
@@ -764,12 +813,12 @@ def run(tier, seed):
                     r = p.run([f"--inline-snapshot={F[-1]}"])
                 return {k: v for k, v in r.after.items()}, r
 
-            for tid in templates:
+            for tid in templates_for_chains:
                 for F in chain_nodes():
                     futs[(tid, F)] = ex.submit(chain_job, tid, F)
             # 2. C13 histories (long sequential jobs, start early)
             c13_samples = []
-            c13_futs = [ex.submit(c13_history, v, fails, c13_samples) for v in c13_variants(tier, rng)]
+            c13_futs = [ex.submit(c13_history, v, fails, c13_samples) for v in variants]
             # 3. the grid
             case_futs = [(c, ex.submit(run_case, templates[c.tid], c)) for c in cases]
 
@@ -778,6 +827,8 @@ def run(tier, seed):
                     tree, r = f.result()
                     chain_trees[(tid, F)] = tree
                     chain_results[(tid, F)] = r
+                except Skipped:
+                    pass
                 except BaseException:
                     fails.add(None, dict(template=tid, chain=list(F)), "chain session raised:\n" + traceback.format_exc(), "")
             # chain sessions are themselves sessions with a single approved category on a partially updated project
@@ -797,15 +848,17 @@ def run(tier, seed):
                     if r.after.get(k) != r.before.get(k):
                         fails.add(None, dict(template=tid, mode=case.mode), f"C04: {k} modified by {case.args}", "")
             for c, f in case_futs:
-                evaluated += 1
-                distinct.add((c.tid, c.mode, c.F, c.select))
                 try:
                     r = f.result()
-                    check_case(templates[c.tid], c, r, chain_trees, fails, templates[c.tid])
+                    evaluated += 1
+                    distinct.add((c.tid, c.mode, c.F, c.select))
+                    check_case(templates[c.tid], c, r, chain_trees, fails, templates[c.tid], deadline.skipped > 0)
                     if len(samples) < 4 and c.mode in ("review-answers", "short-report", "pyproject", "ci"):
                         samples.append(dict(template=c.tid, mode=c.mode, F=list(c.F), args=c.args, env=c.env,
                                             stdin=c.stdin.decode(), exit=r.rc,
                                             changed=diff_trees(r.before, r.after)))
+                except Skipped:
+                    pass
                 except BaseException:
                     fails.add(None, dict(template=c.tid, mode=c.mode, F=list(c.F), args=c.args),
                               "harness exception:\n" + traceback.format_exc(), "")
@@ -817,7 +870,7 @@ def run(tier, seed):
             distinct |= {("C13", i) for i in range(len(c13_futs))}
             samples += c13_samples[:2]
         # sanity of the template itself: all four categories really pending (measured, not assumed)
-        for tid, tpl in templates.items():
+        for tid, tpl in templates_for_chains.items():
             for c in CATS:
                 tr = chain_trees.get((tid, (c,)))
                 if tr is not None and tr.get("test_t.py") == tpl["test_t.py"].encode():
@@ -831,5 +884,9 @@ def run(tier, seed):
         ]
     except BaseException:
         fails.add(None, "B-sess driver", "driver exception:\n" + traceback.format_exc(), "")
-    return dict(evaluated=evaluated, distinct=len(distinct), failures=fails.items, samples=samples[:6],
+    finally:
+        set_deadline(None)
+    if deadline.skipped:
+        cross.append(f"BUDGET: {deadline.skipped} sessions skipped because the {tier} wall-clock budget was used up")
+    return dict(skipped=deadline.skipped, evaluated=evaluated, distinct=len(distinct), failures=fails.items, samples=samples[:5],
                 cross_checks=cross, seconds=round(time.time() - t0, 1), dropped=dict(fails.dropped) and {str(k): v for k, v in fails.dropped.items()})
